@@ -28,7 +28,8 @@ TABLES = ['fields']
 PROP = 'C18'
 ASSUMPTIONS = [
     'the text parsers of /repo are not modelled function by function: parser totality and acceptance are enumerated on the boundary grid (every field x every boundary value x every entry point x every session shape), on the keyword x value stream and on the structural junk list, and sampled on the seeded token soup; they are not proved',
-    'M-Fields is the capacity (RFC) side: fits / encodeField / decodeField are the reference the real parser, encoder and decoder are compared with',
+    'M-Fields has two sides. Capacity (RFC): fits / encodeField / decodeField, the reference the real encoder and decoder are compared with. Acceptance: accepts, the range check of the parser as a function of the 67 bounds harness/tables/fields.py reads from the comparisons of the parser sources on every run (63 from the source by AST, the 4 IPv4-octet fields bounded by inet_pton / bytes() are measured); accepts <-> fits is a theorem, and the real accept / refuse decision of every plain decimal token of the grid and of the random sample is compared with accepts through the driver',
+    'what the generated bounds do not capture is the control flow of the parsers (that the comparison read from the source is the one applied to this token, and that a token which is not a number is refused without an exception): that is what the sweep enumerates',
     'refusal = the entry point returns no route and leaves an error message, or raises ValueError / IndexError (the two exceptions the API command handlers turn into an error reply); any other exception, and not returning within 2 s + 1 s per 10 000 characters, is a failure',
     'accepted = API.api_* returned routes AND the API command handler answered done',
     'a field shorter on the wire than the model width (FlowSpec values take 1/2/4 bytes, RD and route-target switch between the 2-byte-AS and 4-byte-AS form) is compared left-padded with zeros',
@@ -78,6 +79,51 @@ def count_values(spec: fr.FieldSpec, limit: int, unit: int, tier: str) -> list[i
 
 def cls_of(v: int, limit: int) -> str:
     return 'in-range' if v < limit else 'over-range'
+
+
+def token_int(case: 'Case') -> int | None:
+    """The integer a numeric token denotes, for the comparison with the model's `accepts`: the value of a
+    grid / sample case (decimal, or hexadecimal for the two fields written in hex), or a canonical
+    decimal text with a sign.  None for everything that is not a plain number."""
+    if case.cls in ('in-range', 'over-range', 'room-depends-on-session') and case.value is not None:
+        return case.value
+    if case.spec.count is None and re.fullmatch(r'-?\d+', case.vtext) and str(int(case.vtext)) == case.vtext:
+        return int(case.vtext)
+    return None
+
+
+def log_uniform(rng, lo: int, hi: int) -> int:
+    """An integer of [lo, hi) whose magnitude is uniform: small and large values both turn up."""
+    if hi <= lo + 1:
+        return lo
+    span = hi - lo
+    bits = rng.randrange(1, span.bit_length() + 1)
+    return lo + min(span - 1, rng.getrandbits(bits))
+
+
+def sample_cases(sw: 'Sweep', rng, tier: str) -> list[tuple['Case', tuple[str, ...]]]:
+    """A random sample per field on both sides of the limit and below zero (the grid has the boundaries)."""
+    k = 4 if tier == 'quick' else 40
+    out: list[tuple[Case, tuple[str, ...]]] = []
+    entries = ('text', 'api', 'handler')
+    for spec in fr.FIELDS:
+        limit = sw.limit_of(spec)
+        if spec.count is not None:
+            if spec.slow:
+                continue
+            unit = Sweep.unit(spec)
+            room = (65535 - 19 - 4 - 4 - 128) // unit
+            for n in [log_uniform(rng, 1, room + 1) for _ in range(2)] + [log_uniform(rng, room + 1, 2 * room) for _ in range(2)]:
+                out.append((Case(spec, spec.count(n), n, cls_of(n, limit), 'sample'), entries))
+            continue
+        hexform = spec.note == 'hex'
+        vals = [log_uniform(rng, 0, limit) for _ in range(k)] + [log_uniform(rng, limit, limit << 16) for _ in range(k)]
+        for v in vals:
+            out.append((Case(spec, hex(v) if hexform else str(v), v, cls_of(v, limit), 'sample'), entries))
+        for _ in range(max(1, k // 2)):
+            v = -log_uniform(rng, 1, limit << 8)
+            out.append((Case(spec, str(v), None, 'negative', 'sample'), entries))
+    return out
 
 
 # canonical boundary classes (known-findings matching): the ten odd value texts fall in two
@@ -307,6 +353,16 @@ class Sweep:
             if spec.count is not None:
                 # the boundary that matters for a count is "can be sent"
                 case.cls = 'in-range' if fits else ('over-range' if fits is False else 'room-depends-on-session')
+        # the model's acceptance side: the generated range check of the parser against the real decision
+        tok = token_int(case)
+        if tok is not None and (accepted or refused):
+            model = lean.get(f'accepts {lname} {tok}')
+            if model is not None:
+                if (model == '1') != accepted:
+                    if len(ctx.disagreements) < 20:
+                        ctx.disagreements.append(Disagreement('fields-accepts', case.replay(), 'accepts' if model == '1' else 'refuses', 'accepted' if accepted else 'refused'))
+                else:
+                    ctx.count('agree:accepts')
         if fits is None and value is not None:
             # no verdict on acceptance; only: no exception, and what is sent is right
             ctx.count('count-in-the-undecided-band')
@@ -744,6 +800,10 @@ def lean_batch(cases: list[Case], sw: Sweep) -> dict[str, str]:
             lines.append(q)
 
     for c in cases:
+        tok = token_int(c)
+        if tok is not None:
+            for ln in [c.spec.name + x for x in (('4', '2') if c.spec.sess else ('',))]:
+                add(f'accepts {ln} {tok}')
         if c.value is None:
             continue
         names = [c.spec.name + x for x in (('4', '2') if c.spec.sess else ('',))]
@@ -771,9 +831,9 @@ def run(ctx: Ctx) -> None:
     rig = fr.Rig()
     sw = Sweep(ctx, rig)
     ctx.rule = (
-        'grid: every field of M-Fields (each with its own text template: static route, `attributes … nlri`, flow, IPv6 flow, vpls) x '
+        'grid + sample: every field of M-Fields (each with its own text template: static route, `attributes … nlri`, flow, IPv6 flow, vpls) x '
         'boundary values {0, 1, limit-2, limit-1, limit, limit+1, 2*limit, 256*limit} + {2^8, 2^12, 2^16, 2^20, 2^24, 2^32, 2^63, 2^64, 2^96, 10^30 and neighbours} '
-        '+ odd value texts {negative, non-numeric, empty, hex, float, plus sign, leading zeros, unicode digit, exponent, separator}; counts around the extended-length switch, 4096 and the 65535 limit; '
+        '+ odd value texts {negative, non-numeric, empty, hex, float, plus sign, leading zeros, unicode digit, exponent, separator}; counts around the extended-length switch, 4096 and the 65535 limit; plus a seeded random sample per field (magnitude-uniform) below the limit, above it and below zero; the real accept / refuse decision of every numeric token is compared with the model\'s `accepts` (the generated range check) as well as with `fits`; '
         'each through Configuration.parse_route_text, API.api_*, the API command handler and (boundary subset; all in thorough) a configuration file; accepted definitions encoded and decoded on 16 session shapes. '
         'junk: hand-written structural junk; pairs: every keyword of the route grammar x every value of a 30-value vocabulary, bare and bracketed; soup: seeded random token sequences over the same vocabulary; failures shrunk token by token and filed under the last keyword of the shrunk text. '
         'a grid case is non-trivial when the value was accepted, fits, was encoded on all 16 shapes and both decoders returned the written value; '
@@ -787,6 +847,7 @@ def run(ctx: Ctx) -> None:
 
     # ---- grid ------------------------------------------------------------------------------
     todo = build_cases(sw, ctx.tier)
+    todo += sample_cases(sw, ctx.rng, ctx.tier)
     reserve = 25 if ctx.tier == 'quick' else 420
     for case, entries in todo:
         if ctx.time_left() < reserve:
